@@ -1,8 +1,284 @@
-//! C06 runner (stub). Replace the body; keep the signature `pub fn run(args: &[String])`.
-#[allow(unused_imports)]
-use crate::common::{catch, each_line, opt_i64};
+//! C06: run the REAL const evaluator (lexer + parser + TypeChecker::check_program) and the REAL
+//! const emission (IrCodegen::try_generate) on a program.
+//!
+//! Input: one JSON object per line: `{"src": "<source>", "emit": true|false}`.
+//! Output: one JSON object per line:
+//!   `{"parse":"ok",
+//!     "consts":[{"name":n,"ty":<type>|null,"kind":"native"|"frozen"|null,"value":[tag,payload]|null},...],
+//!     "errors":[[kind,message],...],
+//!     "emit":{"ok":[{"name":n,"ty":"<rust type tokens>","init":<rexpr>},...]} | {"err":"<message>"} | null}`
+//!   `{"parse":"lex"|"parse","errors":[...]}`  /  `{"parse":"panic","message":...}`
+//! `<type>`: "int" | "float" | ... | ["tuple", t...] | ["flist", t] | ["fset", t] | ["fdict", k, v] | ["other", text].
+//! `consts[i].ty` is the type recorded for the root initializer span (TypeCheckInfo.expr_types);
+//! `kind`/`value` come from TypeCheckInfo.const_kinds / const_values.
+//! `<rexpr>`: the emitted Rust initializer as a small tree (see `rexpr`).
+use crate::common::{catch, each_line};
+use incan::frontend::ast::*;
+use incan::frontend::diagnostics::CompileError;
+use incan::frontend::symbols::ResolvedType;
+use incan::frontend::{lexer, parser, typechecker};
+use serde_json::{json, Value};
+
+fn ty_json(t: &ResolvedType) -> Value {
+    match t {
+        ResolvedType::Int => json!("int"),
+        ResolvedType::Float => json!("float"),
+        ResolvedType::Bool => json!("bool"),
+        ResolvedType::Str => json!("str"),
+        ResolvedType::Bytes => json!("bytes"),
+        ResolvedType::FrozenStr => json!("fstr"),
+        ResolvedType::FrozenBytes => json!("fbytes"),
+        ResolvedType::Unknown => json!("unknown"),
+        ResolvedType::FrozenList(e) => json!(["flist", ty_json(e)]),
+        ResolvedType::FrozenSet(e) => json!(["fset", ty_json(e)]),
+        ResolvedType::FrozenDict(k, v) => json!(["fdict", ty_json(k), ty_json(v)]),
+        ResolvedType::Tuple(items) => {
+            let mut v = vec![json!("tuple")];
+            v.extend(items.iter().map(ty_json));
+            Value::Array(v)
+        }
+        other => json!(["other", other.to_string()]),
+    }
+}
+
+/// `ConstValue`/`ConstKind` live in a private module: they are read through their `Debug` form
+/// (`Int(7)`, `Float(1.5)`, `Bool(true)`, `FrozenStr("a\\n")`, `FrozenBytes([1, 2])`).
+fn unescape_debug(s: &str) -> Vec<u32> {
+    let cs: Vec<char> = s.chars().collect();
+    let mut out = vec![];
+    let mut i = 0;
+    while i < cs.len() {
+        if cs[i] != '\\' {
+            out.push(cs[i] as u32);
+            i += 1;
+            continue;
+        }
+        i += 1;
+        match cs[i] {
+            'n' => out.push(10),
+            'r' => out.push(13),
+            't' => out.push(9),
+            '0' => out.push(0),
+            'u' => {
+                // \u{hex}
+                let mut j = i + 2;
+                let mut v = 0u32;
+                while cs[j] != '}' {
+                    v = v * 16 + cs[j].to_digit(16).expect("hex");
+                    j += 1;
+                }
+                out.push(v);
+                i = j;
+            }
+            c => out.push(c as u32),
+        }
+        i += 1;
+    }
+    out
+}
+
+fn val_json<T: std::fmt::Debug>(v: &T) -> Value {
+    let d = format!("{:?}", v);
+    let inner = |pre: &str| d[pre.len() + 1..d.len() - 1].to_string();
+    if d.starts_with("Int(") {
+        json!(["int", inner("Int")])
+    } else if d.starts_with("Float(") {
+        let f: f64 = inner("Float").parse().expect("float debug");
+        json!(["float", f.to_bits().to_string()])
+    } else if d.starts_with("Bool(") {
+        json!(["bool", inner("Bool") == "true"])
+    } else if d.starts_with("FrozenStr(") {
+        let q = inner("FrozenStr");
+        json!(["str", unescape_debug(&q[1..q.len() - 1])])
+    } else if d.starts_with("FrozenBytes(") {
+        let q = inner("FrozenBytes");
+        let bytes: Vec<u32> = q[1..q.len() - 1].split(',').filter(|x| !x.trim().is_empty()).map(|x| x.trim().parse().expect("byte")).collect();
+        json!(["bytes", bytes])
+    } else {
+        json!(["other", d])
+    }
+}
+
+/// the parsed initializer as an S-expression, so the check can confirm that the text it printed
+/// parses to the tree it meant
+fn sx(e: &Spanned<Expr>) -> String {
+    let cps = |s: &str| s.chars().map(|c| (c as u32).to_string()).collect::<Vec<_>>().join(",");
+    let many = |tag: &str, items: &[Spanned<Expr>]| {
+        let mut o = format!("({}", tag);
+        for i in items {
+            o.push(' ');
+            o.push_str(&sx(i));
+        }
+        o.push(')');
+        o
+    };
+    match &e.node {
+        Expr::Literal(Literal::Int(n)) => format!("i{}", n),
+        Expr::Literal(Literal::Float(f)) => format!("f{}", f.to_bits()),
+        Expr::Literal(Literal::Bool(b)) => format!("b{}", if *b { 1 } else { 0 }),
+        Expr::Literal(Literal::String(s)) => format!("s[{}]", cps(s)),
+        Expr::Literal(Literal::Bytes(b)) => format!("y[{}]", b.iter().map(|x| x.to_string()).collect::<Vec<_>>().join(",")),
+        Expr::Literal(Literal::None) => "none".to_string(),
+        Expr::Ident(n) => format!("@{}", n),
+        Expr::Unary(UnaryOp::Neg, x) => format!("(neg {})", sx(x)),
+        Expr::Unary(UnaryOp::Not, x) => format!("(not {})", sx(x)),
+        Expr::Binary(l, op, r) => format!("({} {} {})", op.to_string().replace(' ', "_"), sx(l), sx(r)),
+        Expr::Tuple(items) => many("tuple", items),
+        Expr::List(items) => many("list", items),
+        Expr::Set(items) => many("set", items),
+        Expr::Dict(pairs) => {
+            let mut o = "(dict".to_string();
+            for (k, v) in pairs {
+                o.push(' ');
+                o.push_str(&sx(k));
+                o.push(' ');
+                o.push_str(&sx(v));
+            }
+            o.push(')');
+            o
+        }
+        Expr::Index(b, i) => format!("(index {} {})", sx(b), sx(i)),
+        Expr::Slice(b, sl) => {
+            let opt = |o: &Option<Box<Spanned<Expr>>>| o.as_ref().map(|x| sx(x)).unwrap_or_else(|| "_".to_string());
+            format!("(slice {} {} {} {})", sx(b), opt(&sl.start), opt(&sl.end), opt(&sl.step))
+        }
+        Expr::Paren(_) => "(paren)".to_string(),
+        Expr::Call(_, _) => "(call)".to_string(),
+        Expr::SelfExpr => "self".to_string(),
+        _ => "(other)".to_string(),
+    }
+}
+
+fn errs(v: &[CompileError]) -> Vec<Value> {
+    v.iter().map(|e| json!([e.kind.to_string(), e.message])).collect()
+}
+
+// ---- emitted Rust: const items as small expression trees ------------------------------------
+
+fn toks<T: quote::ToTokens>(t: &T) -> String {
+    t.to_token_stream().to_string()
+}
+
+fn rexpr(e: &syn::Expr) -> Value {
+    use syn::Expr as E;
+    match e {
+        E::Lit(l) => match &l.lit {
+            syn::Lit::Int(i) => json!(["int", i.base10_digits(), i.suffix()]),
+            syn::Lit::Float(f) => json!(["float", f.base10_digits(), f.suffix()]),
+            syn::Lit::Bool(b) => json!(["bool", b.value]),
+            syn::Lit::Str(s) => json!(["str", s.value().chars().map(|c| c as u32).collect::<Vec<u32>>()]),
+            syn::Lit::ByteStr(b) => json!(["bytes", b.value()]),
+            other => json!(["other", toks(other)]),
+        },
+        E::Paren(p) => json!(["paren", rexpr(&p.expr)]),
+        E::Group(g) => rexpr(&g.expr),
+        E::Unary(u) => json!(["un", toks(&u.op), rexpr(&u.expr)]),
+        E::Binary(b) => json!(["bin", toks(&b.op), rexpr(&b.left), rexpr(&b.right)]),
+        E::Cast(c) => json!(["cast", rexpr(&c.expr), toks(&c.ty)]),
+        E::Path(p) => json!(["path", toks(&p.path).replace(' ', "")]),
+        E::Tuple(t) => {
+            let mut v = vec![json!("tuple")];
+            v.extend(t.elems.iter().map(rexpr));
+            Value::Array(v)
+        }
+        E::Array(a) => {
+            let mut v = vec![json!("array")];
+            v.extend(a.elems.iter().map(rexpr));
+            Value::Array(v)
+        }
+        E::Reference(r) => json!(["ref", rexpr(&r.expr)]),
+        E::Call(c) => {
+            let mut v = vec![json!("call"), rexpr(&c.func)];
+            v.extend(c.args.iter().map(rexpr));
+            Value::Array(v)
+        }
+        E::MethodCall(m) => {
+            let mut v = vec![json!("mcall"), json!(m.method.to_string()), rexpr(&m.receiver)];
+            v.extend(m.args.iter().map(rexpr));
+            Value::Array(v)
+        }
+        E::Macro(m) => {
+            let name = toks(&m.mac.path).replace(' ', "");
+            let args: Result<syn::punctuated::Punctuated<syn::Expr, syn::Token![,]>, _> =
+                m.mac.parse_body_with(syn::punctuated::Punctuated::parse_terminated);
+            match args {
+                Ok(a) => {
+                    let mut v = vec![json!("macro"), json!(name)];
+                    v.extend(a.iter().map(rexpr));
+                    Value::Array(v)
+                }
+                Err(_) => json!(["other", toks(e)]),
+            }
+        }
+        other => json!(["other", toks(other)]),
+    }
+}
+
+fn emitted_consts(rust: &str) -> Value {
+    match syn::parse_file(rust) {
+        Err(e) => json!({"err": format!("emitted Rust does not parse: {}", e)}),
+        Ok(f) => {
+            let mut out = vec![];
+            for it in &f.items {
+                if let syn::Item::Const(c) = it {
+                    out.push(json!({"name": c.ident.to_string(), "ty": toks(&c.ty), "init": rexpr(&c.expr)}));
+                }
+            }
+            json!({"ok": out})
+        }
+    }
+}
+
+fn one(line: &str) -> Value {
+    let v: Value = match serde_json::from_str(line) {
+        Ok(v) => v,
+        Err(e) => return json!({"parse": "bad-input", "message": e.to_string()}),
+    };
+    let src = v["src"].as_str().unwrap_or("").to_string();
+    let want_emit = v["emit"].as_bool().unwrap_or(false);
+    let toks = match lexer::lex(&src) {
+        Ok(t) => t,
+        Err(e) => return json!({"parse": "lex", "errors": errs(&e)}),
+    };
+    let prog = match parser::parse(&toks) {
+        Ok(p) => p,
+        Err(e) => return json!({"parse": "parse", "errors": errs(&e)}),
+    };
+    let mut tc = typechecker::TypeChecker::new();
+    let res = tc.check_program(&prog);
+    let info = tc.type_info().clone();
+    let mut consts = vec![];
+    for d in &prog.declarations {
+        if let Declaration::Const(c) = &d.node {
+            let ty = info.expr_type(c.value.span).map(ty_json).unwrap_or(Value::Null);
+            let kind = match info.const_kinds.get(&c.name).map(|k| format!("{:?}", k)) {
+                Some(k) if k == "RustNative" => json!("native"),
+                Some(k) if k == "Frozen" => json!("frozen"),
+                Some(k) => json!(k),
+                None => Value::Null,
+            };
+            let value = info.const_values.get(&c.name).map(val_json).unwrap_or(Value::Null);
+            consts.push(json!({"name": c.name, "ty": ty, "kind": kind, "value": value, "tree": sx(&c.value)}));
+        }
+    }
+    let e = match res {
+        Ok(()) => vec![],
+        Err(es) => errs(&es),
+    };
+    let emit = if want_emit {
+        match incan::IrCodegen::new().try_generate(&prog) {
+            Ok(rust) => emitted_consts(&rust),
+            Err(err) => json!({"err": err.to_string()}),
+        }
+    } else {
+        Value::Null
+    };
+    json!({"parse": "ok", "consts": consts, "errors": e, "emit": emit})
+}
 
 pub fn run(_args: &[String]) {
-    eprintln!("c06: runner not implemented");
-    std::process::exit(2);
+    each_line(|line| match catch(|| one(line)) {
+        Ok(v) => v.to_string(),
+        Err(msg) => json!({"parse": "panic", "message": msg}).to_string(),
+    });
 }
